@@ -2,7 +2,7 @@
    never fuel exhaustion - termination is part of the statement because the model's loops run on fuel
    and running out of it is the distinct outcome Panic. *)
 From Coq Require Import List Arith.
-From MR Require Import Model.Dag Proofs.DagApi.
+From MR Require Import Lib.Bytes Model.Index Model.Dag Model.IndexGroups Proofs.IndexProof Proofs.DagApi Proofs.IndexGroupsProof.
 Import ListNotations.
 
 Definition C09_dag_statement (api : list (list nat) -> list nat -> res (list (list nat))) : Prop :=
@@ -18,4 +18,19 @@ Proof. exact C09_dag. Qed.
 Example C09_nonvacuous : exists n, api_groups [[1]; [2]; [3]; [1]] [0] = ErrCycle n.
 Proof. eexists. vm_compute. reflexivity. Qed.
 
+
+(* configuration level: a cycle of the DECLARED dependency relation (through `uses` alone or through `uses`
+   combined with nesting - dep covers both) reachable from the requested targets is always rejected *)
+Definition C09_index_statement (groups : config -> list nat -> res (list (list nat))) : Prop :=
+  forall cfg roots, wf_config cfg -> (forall r, In r roots -> r < length cfg) ->
+    let g := cfg_graph cfg in
+    (forall i j, edge g i j <-> dep_idx cfg i j) /\
+    (cyclic_from g roots -> exists n, groups cfg roots = ErrCycle n).
+
+Theorem C09_index_holds : C09_index_statement (fun cfg roots => api_groups (adj_of cfg) roots).
+Proof.
+  intros cfg roots Hwf Hr. destruct (index_groups_spec cfg roots Hwf Hr) as (H1 & _ & H3). split; assumption.
+Qed.
+
 Print Assumptions C09_holds.
+Print Assumptions C09_index_holds.
